@@ -76,9 +76,11 @@ func buildDoc(c Case) (*openapi3.T, error) {
 	}
 	ref := map[string]any{"$ref": "#/components/schemas/Root"}
 	op := map[string]any{
-		"parameters":  []any{map[string]any{"name": "q", "in": "query", "schema": ref}},
+		"parameters": []any{map[string]any{"name": "q", "in": "query", "schema": ref}, map[string]any{"name": "X-Q", "in": "header", "schema": ref},
+			map[string]any{"name": "cq", "in": "cookie", "schema": ref}},
 		"requestBody": map[string]any{"content": map[string]any{"application/json": map[string]any{"schema": ref}}},
-		"responses":   map[string]any{"200": map[string]any{"description": "ok", "content": map[string]any{"application/json": map[string]any{"schema": ref}}}},
+		"responses": map[string]any{"200": map[string]any{"description": "ok", "headers": map[string]any{"X-R": map[string]any{"schema": ref}},
+			"content": map[string]any{"application/json": map[string]any{"schema": ref}}}},
 	}
 	raw := kinx.Doc(map[string]any{"/p": map[string]any{"post": op}}, map[string]any{"schemas": comps})
 	return kinx.Load(raw)
@@ -113,7 +115,7 @@ func check(c Case) (o h.Outcome) {
 			return
 		}
 		fullTextMustBeClean = noDetails
-	case "request", "request-multi", "query":
+	case "request", "request-multi", "query", "header", "cookie":
 		route, rerr := kinx.Route(doc, "/p", "POST")
 		if rerr != nil {
 			panic("harness: " + rerr.Error())
@@ -123,13 +125,22 @@ func check(c Case) (o h.Outcome) {
 			opts.WithCustomSchemaErrorFunc(reasonOnly)
 		}
 		var req *http.Request
-		if c.Entry == "query" {
+		if c.Entry == "query" || c.Entry == "header" || c.Entry == "cookie" {
 			s, isStr := v.(string)
 			if !isStr {
 				o.Discard = true
 				return
 			}
-			req, _ = http.NewRequest("POST", "http://x/p?q="+url.QueryEscape(s), nil)
+			switch c.Entry {
+			case "query":
+				req, _ = http.NewRequest("POST", "http://x/p?q="+url.QueryEscape(s), nil)
+			case "header":
+				req, _ = http.NewRequest("POST", "http://x/p", nil)
+				req.Header.Set("X-Q", s)
+			default:
+				req, _ = http.NewRequest("POST", "http://x/p", nil)
+				req.AddCookie(&http.Cookie{Name: "cq", Value: s})
+			}
 			opts.ExcludeRequestBody = true
 		} else {
 			req, _ = http.NewRequest("POST", "http://x/p", bytes.NewReader([]byte(c.Value)))
@@ -141,7 +152,7 @@ func check(c Case) (o h.Outcome) {
 			return
 		}
 		fullTextMustBeClean = true
-		if c.Entry == "query" {
+		if c.Entry == "query" || c.Entry == "header" || c.Entry == "cookie" {
 			// only parameters that parse but fail their schema are in the quantifier
 			isSchemaErr := false
 			kinx.WalkErrors(verr, func(e error) {
@@ -155,7 +166,7 @@ func check(c Case) (o h.Outcome) {
 				return
 			}
 		}
-	case "response":
+	case "response", "response-header":
 		route, _ := kinx.Route(doc, "/p", "POST")
 		opts := &openapi3filter.Options{}
 		if !noDetails {
@@ -167,10 +178,35 @@ func check(c Case) (o h.Outcome) {
 			Status:                 200, Header: http.Header{"Content-Type": []string{"application/json"}},
 			Body: io.NopCloser(strings.NewReader(c.Value)), Options: opts,
 		}
+		if c.Entry == "response-header" {
+			s, isStr := v.(string)
+			if !isStr {
+				o.Discard = true
+				return
+			}
+			in.Header.Set("X-R", s)
+			in.Body = nil
+			in.Header.Del("Content-Type")
+			opts.ExcludeResponseBody = true
+		}
 		if !o.Guarded("ValidateResponse", func() { verr = openapi3filter.ValidateResponse(context.Background(), in) }) {
 			return
 		}
 		fullTextMustBeClean = true
+		if c.Entry == "response-header" {
+			// as for parameters: only header texts that decode but fail their schema are in the quantifier
+			isSchemaErr := false
+			kinx.WalkErrors(verr, func(e error) {
+				if _, ok := e.(*openapi3.SchemaError); ok {
+					isSchemaErr = true
+				}
+			})
+			if verr != nil && !isSchemaErr {
+				o.Class("response-header:parse-error")
+				o.Discard = true
+				return
+			}
+		}
 	default:
 		panic("harness: bad entry " + c.Entry)
 	}
@@ -348,12 +384,9 @@ func gen(t *rapid.T) Case {
 	v := schemagen.GenValue(s, depth+2).Draw(t, "value")
 	n := 0
 	v = mark(t, v, &n)
-	entries := []string{"visit", "visit-multi", "request", "request-multi", "response", "query"}
-	if noDetails {
-		entries = []string{"visit", "visit-multi", "request", "request-multi", "response", "query"}
-	}
+	entries := []string{"visit", "visit-multi", "request", "request-multi", "response", "query", "header", "cookie", "response-header"}
 	entry := rapid.SampledFrom(entries).Draw(t, "entry")
-	if entry == "query" {
+	if entry == "query" || entry == "header" || entry == "cookie" || entry == "response-header" {
 		if _, ok := v.(string); !ok {
 			n++
 			v = fmt.Sprintf("%s%dsecretvalue", markPrefix, n)
